@@ -18,6 +18,7 @@ def run(ctx: Ctx) -> list[Ob]:
     obs += r11.run(ctx)
     obs += r1.r1d_sweep(ctx)
     obs += r12b.layer_rewrites(ctx)
+    obs += r11.r11d(ctx)
     return obs
 
 
@@ -41,12 +42,12 @@ SPEC = PropSpec(
         "semiring belong to one algebra (linear: sum/prod/add/mul, log: logsumexp/sum/logaddexp/add) and forward dim / keepdim; every "
         "ordered pair of semirings has a registered morphism whose exp / log matches the two families; the stable reduce of a "
         "log-space semiring shifts every input by its own maximum over dim (keepdim=True), makes the shift finite before subtracting "
-        "(an all -inf row is log 0, not nan), adds the shifts back and drops the reduced axis when keepdim is False. R12b: every layer fuse rule of the optimiser (sum collapse, Tucker, CP) returns a layer that, interpreted on the same abstract input as the chain it replaces, has the same result shape, element order and parameter/data contraction pairing, and carries the compiler's semiring. R4l (element order): a Kronecker layer lists the units of input 0 major, and a sum layer contracts its weight columns against the inputs flattened arity major ([H, Ki]) -- the orders the mixing-weight parameter, the Tucker layer and sampling assume."
+        "(an all -inf row is log 0, not nan), adds the shifts back and drops the reduced axis when keepdim is False. R12b: every layer fuse rule of the optimiser (sum collapse, Tucker, CP) returns a layer that, interpreted on the same abstract input as the chain it replaces, has the same result shape, element order and parameter/data contraction pairing, and carries the compiler's semiring. R4l (element order): a Kronecker layer lists the units of input 0 major, and a sum layer contracts its weight columns against the inputs flattened arity major ([H, Ki]) -- the orders the mixing-weight parameter, the Tucker layer and sampling assume. R11d: stable exponentials shift by a maximum along an axis."
     ),
     not_decided=(
         "numerical equality with the denoted function; the full tensor-shape contracts of the forward functions (shape "
         "interpreter of DESIGN 3.R4 not built); run-time address-book index arithmetic."
     ),
     run=run,
-    floors={"R4l": 2, "R12b": 7, "R1a": 38, "R1b": 38, "R1c": 170, "R1d": 10, "R4": 8, "R4b": 25, "R8": 12, "R11a": 12, "R11b": 12, "R11c": 10},
+    floors={"R11d": 2, "R4l": 2, "R12b": 7, "R1a": 38, "R1b": 38, "R1c": 170, "R1d": 10, "R4": 8, "R4b": 25, "R8": 12, "R11a": 12, "R11b": 12, "R11c": 10},
 )
